@@ -23,6 +23,7 @@ pub open spec fn lc_wf(lc: LineChange) -> bool {
 
 //@include prelude/diff_lines_spec.rs
 //@include prelude/diff_lines_proof.rs
+//@include prelude/diff_parse_hunk.rs
 //@include prelude/diff_patchset.rs
 //@include prelude/diff_unquote.rs
 
@@ -272,6 +273,13 @@ verif_patchset_from_str(patch_diff)?
 let mut result: HashMap<PathBuf, Vec<LineChange>> = HashMap::new();
 //@edit rule=ghost before=<<for patched_file in patch_set>>
     let ghost files = patch_set.spec_files();
+    proof {
+        // every hunk was built by unidiff's `parse_hunk` (proved on the crate's text: X.parse_hunk, group
+        // unidiffparse), hence every line carries the numbers `line_changes` unwraps
+        assert forall|i: int| 0 <= i < files.len() implies file_numbered(#[trigger] files[i]) by {
+            lemma_parsed_file_numbered(files[i]); // [Da.step.files_numbered_because_parsed]
+        }
+    }
     broadcast use axiom_diff_pathbuf_key_model;
 //@edit rule=E14 find=<<for patched_file in patch_set {>>
 let mut it = verif_patchset_into_iter(patch_set);
